@@ -133,6 +133,55 @@ func checkInput(t hx.TB, test, x string, others []string, K int) {
 			}
 		}
 	}
+	// half-done interleaving: x is parsed and held, the other inputs are parsed and printed (each of them
+	// succeeds or is rejected exactly as it is alone), and only then is x printed: all of that is "whatever
+	// else was parsed or printed earlier in the process". The module of the very first parse is printed once
+	// more at the end. A failure is stored together with the other inputs (see TestReplay).
+	if first.ok && len(others) > 0 {
+		all := x
+		for _, o := range others {
+			all += otherMarker + o
+		}
+		held, _, _ := lx.Parse(x)
+		alone := make([]result, len(others))
+		for i, o := range others {
+			alone[i] = outcome(o)
+		}
+		var ms []*ir.Module
+		for _, o := range others {
+			mo, err, p := lx.Parse(o)
+			if p != nil || err != nil {
+				mo = nil
+			}
+			ms = append(ms, mo)
+		}
+		if held != nil {
+			s, pp := lx.Print(held)
+			if pp != nil || s != first.text {
+				hx.Fail(t, test, "ll", all, "the text was parsed, %d other inputs were parsed, then the held module was printed: not the text that parse and print give without the others (%v)\n%s", len(others), pp, firstDiff(first.text, s))
+			}
+		} else {
+			hx.Fail(t, test, "ll", all, "parse %d of the same text was rejected, parse 0 was accepted", K)
+		}
+		for i := len(ms) - 1; i >= 0; i-- {
+			if alone[i].panic != "" {
+				continue
+			}
+			if (ms[i] != nil) != alone[i].ok {
+				hx.Fail(t, test, "ll", all, "other input %d is accepted=%v while the first text is held, accepted=%v alone", i, ms[i] != nil, alone[i].ok)
+			}
+			if ms[i] != nil {
+				s, pp := lx.Print(ms[i])
+				if pp != nil || s != alone[i].text {
+					hx.Fail(t, test, "ll", all, "other input %d, parsed while the first text and %d more modules are held and printed last-parsed-first, prints differently from the same input alone (%v)\n%s", i, len(ms)-1, pp, firstDiff(alone[i].text, s))
+				}
+			}
+		}
+		if s, pp := lx.Print(first.m); pp != nil || s != first.text {
+			hx.Fail(t, test, "ll", all, "the module of the first parse prints differently after the other inputs were handled (%v)\n%s", pp, firstDiff(first.text, s))
+		}
+		hx.Hist("held_while_others_parsed_and_printed")
+	}
 	// entry points; a read that failed part-way (between two entities, inside one) came before
 	chaos.Run("reader-fails", len(x))
 	chaos.Run("reader-fails", len(x)+1)
@@ -420,8 +469,12 @@ func TestReplay(t *testing.T) {
 	if err != nil {
 		t.Fatal(err)
 	}
-	checkInput(t, "Replay", string(buf), nil, 64)
+	parts := strings.Split(string(buf), otherMarker)
+	checkInput(t, "Replay", parts[0], parts[1:], 64)
 }
+
+// otherMarker separates, in a stored case, the judged input from the other inputs that were handled in between.
+const otherMarker = "\n; ==== verif C12: another input, handled in the same process ====\n"
 
 // chunkEOFReader delivers s in chunks and returns io.EOF together with the last chunk.
 type chunkEOFReader struct {
